@@ -1077,7 +1077,11 @@ func (g *Gen) addUnmanaged(d *GConf) {
 			// Administratively down, bindings left in place.
 			d.Shut = map[string]bool{"mgmt": true}
 		}
-		d.ACLs = append(d.ACLs, &GACL{"mgmt_in", []string{"permit tcp object-group admin-hosts any4 eq 22", "deny ip any4 any4"}})
+		// The ACL of that interface also uses a group with a generated
+		// name that nothing else refers to.
+		d.Groups = append(d.Groups, &GGroup{"kept_mgmt_hosts-DRC-5", []string{"host 192.168.7.11", "host 192.168.7.12"}})
+		d.ACLs = append(d.ACLs, &GACL{"mgmt_in", []string{"permit tcp object-group admin-hosts any4 eq 22",
+			"permit tcp object-group kept_mgmt_hosts-DRC-5 any4 eq 443", "deny ip any4 any4"}})
 		d.Binds = append(d.Binds, [3]string{"mgmt_in", "in", "mgmt"})
 		if g.Rng.Intn(2) == 0 {
 			d.ACLs = append(d.ACLs, &GACL{"mgmt_out", []string{"permit udp any4 host 192.168.7.5 eq 162", "deny ip any4 any4"}})
